@@ -3,7 +3,7 @@ import IofloModel.Drv.Proto
 /-!
 driver for the keep-alive model (engine `keepalive`).  One case per line:
 
-  ka <n> (A <cl|~> <k> <piece-hex>*){n} S <schedule: string of c / s>
+  ka <n> (A <cl|~> <bodyless-status 0|1> <head-request 0|1> <k> <piece-hex>*){n} S <schedule: string of c / s>
      → <delivered>:<served> per step, `;`-joined (or `-`) | final <waited> <stuck> <n> (<req> <tag> <body>)* F (L<n> | C | U)*
 
 request `i` (0-based) has identity `i`; the `i`-th `A` block is what the application does for it.
@@ -19,19 +19,20 @@ def takeHex : Nat → List String → Option (List Bytes × List String)
     | _, _ => none
   | _, _ => none
 
-partial def apps? : Nat → List String → Option (List AppResp × List String)
+partial def apps? : Nat → List String → Option (List (AppResp × Bool) × List String)
   | 0, rest => some ([], rest)
-  | n + 1, "A" :: cl :: k :: rest =>
+  | n + 1, "A" :: cl :: bl :: hd :: k :: rest =>
     let cl? : Option (Option Nat) := if cl == "~" then some none else (cl.toNat?).map some
-    match cl?, k.toNat? with
-    | some cl, some k =>
+    let flag? (t : String) : Option Bool := if t == "1" then some true else if t == "0" then some false else none
+    match cl?, flag? bl, flag? hd, k.toNat? with
+    | some cl, some bl, some hd, some k =>
       (match takeHex k rest with
        | some (ps, rest') =>
          (match apps? n rest' with
-          | some (as, r) => some ({ cl := cl, pieces := ps } :: as, r)
+          | some (as, r) => some (({ cl := cl, pieces := ps, bodyless := bl }, hd) :: as, r)
           | none => none)
        | none => none)
-    | _, _ => none
+    | _, _, _, _ => none
   | _, _ => none
 
 def fmtFraming : Framing → String
@@ -51,8 +52,8 @@ def step (_ : Unit) (line : String) : Unit × String :=
         (match whos? with
          | none => ((), "bad-op")
          | some whos =>
-           let app : Req → AppResp := fun q => apps.getD q.id { cl := none, pieces := [] }
-           let reqs := (List.range n).map (fun i => ({ id := i } : Req))
+           let app : Req → AppResp := fun q => (apps.getD q.id ({ cl := none, pieces := [] }, false)).1
+           let reqs := (List.range n).map (fun i => ({ id := i, head := (apps.getD i ({ cl := none, pieces := [] }, false)).2 } : Req))
            let (final, trace) := whos.foldl (fun (acc : Sys × List String) w =>
              let y := Ioflo.KeepAlive.step app acc.1 w
              (y, acc.2 ++ [toString y.c.responses.length ++ ":" ++ toString y.s.served])) (initSys reqs, [])
